@@ -44,6 +44,12 @@ def variants(ctx, types, roots, dod, root):
     vs.append(("mixed entry points", [{"k": ["export_all", "export_all_to", "export"][j % 3], "t": t, "dir": sp[j % len(sp)]} for j, t in enumerate(sh)]
                + [{"k": "export_all_to", "t": r, "dir": sp[-1]} for r in roots]))
     vs.append(("repeated", [{"k": "export_all", "t": r} for r in roots] * 2 + [{"k": "export", "t": t} for t in sh]))
+    # a previous run (another process) that exported MORE into the same files: types outside S that share a file with a type of S
+    paths = {types[t]["output_path"] for t in S}
+    extra = [t for t in EXPORTABLE if t not in S and types[t]["output_path"] in paths]
+    if extra:
+        vs.append(("after a previous run that exported a superset into the same files",
+                   [{"k": "export", "t": t} for t in S + extra] + [{"k": "reset"}] + [{"k": "export_all", "t": r} for r in roots]))
     return S, vs
 
 
@@ -56,6 +62,14 @@ def run(ctx):
     root = os.path.join(vlib.SCRATCH, "u6")
     total = groups = 0
     rootsets = [[7], [2], [4, 5], [23, 3], [10, 11], [21, 22], [17, 24], [6, 9, 5], [18, 19, 20], [4, 23, 5, 3]]
+    # one type of every shared file alone (so that the other types of that file are "outside the export set")
+    types0, _ = uni.describe(binary, root, None)
+    byp = {}
+    for t in EXPORTABLE:
+        byp.setdefault(types0[t]["output_path"], []).append(t)
+    for pth, ts in byp.items():
+        if len(ts) >= 2 and [ts[0]] not in rootsets:
+            rootsets.append([ts[0]])
     if not ctx.quick:
         for _ in range(30):
             rootsets.append(ctx.rng.sample(EXPORTABLE, ctx.rng.randint(1, 4)))
